@@ -207,7 +207,7 @@ func c17Scenarios(tier string) []engine.Scenario {
 	for _, js := range []bool{false, true} {
 		sc := engine.Scenario{
 			Name: fmt.Sprintf("all-modules,json=%v", js), Depth: depth,
-			Cfg: world.Config{Modules: []string{"auth", "otp", "remember", "oauth2", "recover", "register", "confirm", "logout", "totp2fa", "sms2fa", "recovery"}, JSON: js, RecoverLoginAfter: true, EmailAuthRequired: true, SharedLayout: true},
+			Cfg: world.Config{Modules: []string{"auth", "otp", "remember", "oauth2", "recover", "register", "confirm", "logout", "totp2fa", "sms2fa", "recovery"}, JSON: js, RecoverLoginAfter: true, EmailAuthRequired: true, SharedLayout: true, OnUnauthed: authboss.RespondRedirect},
 			Init: func(s *world.Stack) *world.World {
 				w := world.NewWorld("B1", "B2")
 				w.Layout = map[string]interface{}{"site_name": "verif"}
@@ -241,6 +241,15 @@ func c17Scenarios(tier string) []engine.Scenario {
 					r.Tag.Note = "pw:cur,json-bool"
 					return r
 				}, ""))
+				// syntactically broken JSON right next to the secret (a trailing comma; a body cut off mid-way)
+				for _, bb := range []cand{{"json-trailing-comma", `{"email":"` + U1 + `","password":"` + P1 + `",}`}, {"json-truncated", `{"email":"` + U1 + `","password":"` + P1}} {
+					a = append(a, flows.A("login(B1,u1,pw:cur,"+bb.note+")", func(s *world.Stack, _ *world.World) world.Req {
+						r := flows.Login(s, b, U1, P1, false)
+						r.Form, r.RawBody = nil, bb.val
+						r.Tag.Note = "pw:cur," + bb.note
+						return r
+					}, ""))
+				}
 				a = append(a, flows.A("register(B2,u3,json-number)", func(s *world.Stack, _ *world.World) world.Req {
 					r := flows.Register(s, "B2", map[string]string{"email": U3, "password": P3})
 					r.Form, r.RawBody = nil, `{"email":"`+U3+`","password":"`+P3+`","confirm_password":"`+P3+`","age":42}`
@@ -298,6 +307,15 @@ func c17Scenarios(tier string) []engine.Scenario {
 						return r
 					}, ""))
 				}
+			}
+			// the mailed link opened in the other browser (no session there, or somebody else's)
+			if sec := w.Truth.Newest("vtok", U1, false); sec != nil {
+				v := sec.Val
+				a = append(a, flows.A("verify-end(B2,totp,vtok:live)", func(s *world.Stack, _ *world.World) world.Req {
+					r := flows.VerifyEnd(s, "B2", "totp", v)
+					r.Tag.Note = "vtok:live"
+					return r
+				}, ""))
 			}
 			a = append(a, simple("totp-setup(B1)", func(s *world.Stack) world.Req { return flows.TOTPSetup(s, b) }))
 			if sec := w.Browsers[b].Session["totp_secret"]; sec != "" {
